@@ -16,7 +16,7 @@ use crate::geom::{self, Lattice};
 use crate::statejson::{self, Params, ShapeSpec};
 
 pub const TITLE: &str = "Output is faithful: JSON round-trips and the SVG shows the same structure";
-pub const RULE: &str = "part roundtrip: states of both kinds, all groups and shapes, built with parameters from {in-range mixtures; cell parameters with arbitrary mantissa bits inside length 0.3..100, ratio 0.05..3, angle 0.05..pi-0.05; site parameters from raw finite f64 bit patterns, 17-significant-digit values, subnormals, +-0, the largest double}; oracle: s' = from_str(to_string(s)) re-serialises byte-identically, every number of the JSON tree is bit-identical (nothing missing or added), the parameters held in memory (read through the basis handles, not the serialiser) are bit-identical, score() and relative_positions() are bit-identical. part svg: in-range states; every <use href=#mol transform=matrix(a b c d e f)> of as_svg() is parsed and the multiset of matrices must equal, each exactly once, the harness's own Cartesian placements (ITA table, own lattice) and their 8 nearest lattice translates (rel 1e-12), and the 9 cell outlines the lattice translates of the identity. part cli: the .json written by the real binary re-reads to a state whose SVG is byte-identical to the written .svg and whose JSON re-serialises byte-identically; half of the runs write to a path whose .json/.svg already exist with 1..200000 bytes of earlier content (overwriting earlier results is the normal use). Non-trivial = a parameter whose shortest decimal form has 17 significant digits, or a group with a mirror/glide; distinct by hash of the case. part multi-site: states with 1..6 occupied sites (initialise) in the 7 built-in groups and in three user-built groups (p4, p4mm in a square cell, c1m1): SVG multiset (when two copies coincide modulo the lattice only membership is checked) and the full JSON round-trip oracle.";
+pub const RULE: &str = "part roundtrip: states of both kinds, all groups and shapes, built with parameters from {in-range mixtures; cell parameters with arbitrary mantissa bits inside length 0.3..100, ratio 0.05..3, angle 0.05..pi-0.05; site parameters from raw finite f64 bit patterns, 17-significant-digit values, subnormals, +-0, the largest double}; oracle: s' = from_str(to_string(s)) re-serialises byte-identically, every number of the JSON tree is bit-identical (nothing missing or added), the parameters held in memory (read through the basis handles, not the serialiser) are bit-identical, score() and relative_positions() are bit-identical. part svg: in-range states; every <use href=#mol transform=matrix(a b c d e f)> of as_svg() is parsed and the multiset of matrices must equal, each exactly once, the harness's own Cartesian placements (ITA table, own lattice) and their 8 nearest lattice translates (rel 1e-12), and the 9 cell outlines the lattice translates of the identity. part cli: the .json written by the real binary re-reads to a state whose SVG is byte-identical to the written .svg and whose JSON re-serialises byte-identically; half of the runs write to a path whose .json/.svg already exist with 1..200000 bytes of earlier content (overwriting earlier results is the normal use). Non-trivial = a parameter whose shortest decimal form has 17 significant digits, or a group with a mirror/glide; distinct by hash of the case. part multi-site: states with 1..6 occupied sites (initialise) in the 7 built-in groups and in four user-built groups (p4, p4mm in a square cell, c1m1, a two-fold group in a cell of the hexagonal family): SVG multiset (when two copies coincide modulo the lattice only membership is checked) and the full JSON round-trip oracle.";
 
 pub fn assumptions() -> Vec<&'static str> {
     vec!["states are built through serde_json::Value so that the values under test are exact before the first text serialisation", "shape coordinates inside the JSON are included in the bit-exact comparison"]
@@ -553,14 +553,21 @@ pub struct MultiCase {
 }
 
 fn multi_strat(_: &Ctx) -> BoxedStrategy<MultiCase> {
-    (kind_shape(), prop_oneof![3 => Just(None), 1 => (0usize..3).prop_map(Some)])
+    (kind_shape(), prop_oneof![3 => Just(None), 1 => (0usize..4).prop_map(Some)])
         .prop_flat_map(|((kind, shape), custom)| (crate::multisite::multi_strat(Just(shape).boxed(), 0.02, 0.9, 1, 6), Just(kind), Just(custom)))
         .prop_map(|(mut spec, kind, custom)| {
             if let Some(i) = custom {
                 // a cell of the custom group's family (square for p4 / p4mm, rectangular for c1m1)
-                spec.angle = PI / 2.;
-                if i % 3 != 2 {
-                    spec.ratio = 1.;
+                match i % 4 {
+                    0 | 1 => {
+                        spec.angle = PI / 2.;
+                        spec.ratio = 1.;
+                    }
+                    3 => {
+                        spec.angle = PI / 3.;
+                        spec.ratio = 1.;
+                    }
+                    _ => spec.angle = PI / 2.,
                 }
             }
             MultiCase { spec, kind, custom }
